@@ -94,7 +94,7 @@ def parse_c_template(t):
 
 
 def parse_f_template(t):
-    """f_arg_decl / f_result_decl template -> ("fType", value) | ("fixed", dummy)"""
+    """f_arg_decl / f_result_decl template -> ("fType", value) | ("fixed", dummy) | ("fixedDim", dummy: shape from {f_c_dimension})"""
     s = t.replace("{f_intent}", "IN")
     uses_ftype = "{f_type}" in s
     uses_dim = "{f_c_dimension}" in s
@@ -109,12 +109,14 @@ def parse_f_template(t):
     if len(ds) != 1 or ds[0][0] != "name":
         raise TranslatorError("f_arg_decl template %r: expected one entity" % t)
     d = ds[0][1]
-    if uses_ftype != uses_dim:
-        raise TranslatorError("f_arg_decl template %r: {f_type} and {f_c_dimension} are modelled together only" % t)
+    if uses_dim and d["shape"] != "scalar":
+        raise TranslatorError("f_arg_decl template %r: attribute/dimension besides {f_c_dimension}" % t)
     if uses_ftype:
-        if d["shape"] != "scalar":
-            raise TranslatorError("f_arg_decl template %r: attribute changes the shape of a {f_type} declaration" % t)
+        if not uses_dim:
+            raise TranslatorError("f_arg_decl template %r: {f_type} without {f_c_dimension} is not modelled" % t)
         return ("fType", d["value"])
+    if uses_dim:
+        return ("fixedDim", d)
     return ("fixed", d)
 
 
@@ -146,6 +148,8 @@ def enc_ct(t):
 def enc_ft(t):
     if t[0] == "fType":
         return (0, 0, 0, 1 if t[1] else 0, 0)
+    if t[0] == "fixedDim":
+        return (2,) + enc_f(t[1])
     return (1,) + enc_f(t[1])
 
 
@@ -164,16 +168,8 @@ def ret_class(s, typemap):
 def signature(s, typemap):
     cd = tuple(enc_ct(parse_c_template(t)) for t in s.c_arg_decl) if "arg_decl" in list(s.buf_args) + list(s.buf_extra) else ()
     fd = tuple(enc_ft(parse_f_template(t)) for t in s.f_arg_decl) if "arg_decl" in list(s.buf_args) + list(s.buf_extra) else ()
-    # what wrap_function_interface reads for the result declaration, in its order of precedence
-    if s.f_result_decl:
-        fres = ("decl",) + tuple(enc_ft(parse_f_template(t)) for t in s.f_result_decl)
-    elif s.return_cptr:
-        fres = ("cptr",)
-    elif s.return_type:
-        fres = ("type", s.return_type)
-    else:
-        fres = ("ast",)
-    return (tuple(s.buf_args), tuple(s.buf_extra), cd, fd)
+    rd = tuple(enc_ft(parse_f_template(t)) for t in s.f_result_decl)
+    return (tuple(s.buf_args), tuple(s.buf_extra), cd, fd, rd, ret_class(s, typemap))
 
 
 # ------------------------------------------------------------------ (a)
@@ -222,8 +218,19 @@ def lookup_tables(lang):
         b = statements.lookup_fc_stmts(["c", "void", "scalar", "result", sx])
         rpairs.append((sid(a), sid(b)))
         a = statements.lookup_fc_stmts(["c", "shadow", "dtor"])
-        rpairs.append((sid(a), sid(b)))
-    return names, pairs, rpairs, ents
+        ka = signature(a, typemap)
+        if ka[-1] == 1:
+            ka = ka[:-1] + (0,)      # "void" forced by the entry == void printed from the declaration
+        if ka not in sigid:
+            sigid[ka] = len(sigid) + 1
+        rpairs.append((sigid[ka], sid(b)))
+    # entries the Fortran result path can reach: a forced pointer return type needs return_cptr
+    rrows = []
+    for n in sorted(ents):
+        if "result" in n.split("_"):
+            e = ents[n]
+            rrows.append((eid[n], ret_class(e, typemap), 1 if e.return_cptr else 0, 1 if e.f_result_decl else 0))
+    return names, pairs, rpairs, ents, rrows
 
 
 def decl_rows(ents):
@@ -428,7 +435,7 @@ def render(data):
     L = ["/- GENERATED by tools/extract_interop.py from the /repo working tree.  Do not edit. -/",
          "namespace Shroud.Gen.Interop", ""]
     for lang, key in (("C", "c"), ("Cxx", "c++")):
-        names, pairs, rpairs = data["lookup"][key]
+        names, pairs, rpairs, rrows = data["lookup"][key]
         L.append("/-- language %s: (entry id by the wrapc path, entry id by the wrapf interface path) for every combination;" % key)
         L.append("    order: sgroup %s x spointer %s x intent x suffix x deref x cdesc x specialize -/" % (data["sgroups"], SPOINTERS))
         chunks = [pairs[i:i + 2520] for i in range(0, len(pairs), 2520)]
@@ -441,6 +448,10 @@ def render(data):
         L.append("/-- (interface-signature id by the wrapc result path, by the wrapf result path) -/")
         L.append("def resultPairs%s : List (Nat × Nat) := [" % lang)
         L.append(_lst(["(%d,%d)" % p for p in rpairs], per=24))
+        L.append("]")
+        L.append("/-- entries reachable by the Fortran result path: (entry id, forced return class 0 none 1 void 2 pointer, return_cptr, has f_result_decl) -/")
+        L.append("def resultEntries%s : List (Nat × Nat × Nat × Nat) := [" % lang)
+        L.append(_lst([_tup(x) for x in rrows], per=10))
         L.append("]")
         L.append("def entryNames%s : List String := [" % lang)
         L.append(_lst(['"%s"' % n for n in names], per=6))
@@ -473,7 +484,7 @@ def render(data):
     L.append("def defineNames : List String := [" + ", ".join('"%s"' % n for n in data["defnames"]) + "]")
     L.append("")
     L.append("/-- entries with buf_args arg_decl: (c_arg_decl templates (kind, class, n, ptr), f_arg_decl templates (kind, class, n, value, shape));")
-    L.append("    kind 0 = built from the argument's type ({cxx_type} with ptr stars / {f_type}..{f_c_dimension}), 1 = fixed class -/")
+    L.append("    kind 0 = built from the argument's type ({cxx_type} with ptr stars / {f_type}..{f_c_dimension}), 1 = fixed class,\n    2 = fixed type with the argument's {f_c_dimension} -/")
     L.append("def declRows : List (List (Nat × Nat × Nat × Nat) × List (Nat × Nat × Nat × Nat × Nat)) := [")
     L.append(",\n".join("  ([%s], [%s])" % (", ".join(_tup(enc_ct(x)) for x in cs), ", ".join(_tup(enc_ft(x)) for x in fs))
                         for _n, cs, fs in data["decl"]))
@@ -495,8 +506,8 @@ def collect():
     data = {"lookup": {}}
     decl_all, rdecl_all = {}, {}
     for lang in ("c", "c++"):
-        names, pairs, rpairs, ents = lookup_tables(lang)
-        data["lookup"][lang] = (names, pairs, rpairs)
+        names, pairs, rpairs, ents, rrows = lookup_tables(lang)
+        data["lookup"][lang] = (names, pairs, rpairs, rrows)
         rows, rrows = decl_rows(ents)
         for n, cs, fs in rows:
             decl_all[(n, repr(cs), repr(fs))] = (n, cs, fs)
